@@ -87,6 +87,54 @@ def build():
         ],
         props=["C10"]))
     cs.append(term_indices)
+
+    # column_names == concatenation of the per-term column lists, in term order
+    column_names = reg.add(Contract(
+        MS + "column_names", params={"self": SELF}, returns="Seq[Str]", is_property=True,
+        lets={"S": "self.structure"}, spec_env={"off": off}, axioms=[off_axioms],
+        flat={0: lambda eng, S, k: OFF(S.t, k)},
+        ensures=[
+            "len(result) == off(S, len(S))",
+            "forall(lambda k, m: implies(0 <= k and k < len(S) and 0 <= m and m < len(S[k].columns), result[off(S, k) + m] == S[k].columns[m]))",
+        ], props=["C10"]))
+    cs.append(column_names)
+
+    SELF2 = {"__class__": "ModelSpec", "structure": "Seq[ETS]", "column_names": "Seq[Str]"}
+    # column_indices[name] == position (names pairwise distinct: established by the materializer, see C02 bounded)
+    column_indices = reg.add(Contract(
+        MS + "column_indices", params={"self": SELF2}, returns="Dict[Str,Int]", is_property=True,
+        lets={"N": "self.column_names"},
+        requires=["distinct(N)"],
+        ensures=[
+            "len(keys(result)) == len(N)",
+            "forall(lambda i: implies(0 <= i and i < len(N), keys(result)[i] == N[i] and result[N[i]] == i))",
+        ], props=["C10"]))
+    cs.append(column_indices)
+
+    SELF3 = {"__class__": "ModelSpec", "structure": "Seq[ETS]", "column_names": "Seq[Str]", "column_indices": "Dict[Str,Int]"}
+    get_column_indices = reg.add(Contract(
+        MS + "get_column_indices", params={"self": SELF3, "columns": "Seq[Str]"}, returns="Seq[Int]",
+        raises={"KeyError": "exists(lambda i: 0 <= i and i < len(columns) and columns[i] not in self.column_indices)"},
+        ensures=[
+            "len(result) == len(columns)",
+            "forall(lambda i: implies(0 <= i and i < len(columns), result[i] == self.column_indices[columns[i]]))",
+        ], props=["C10"]))
+    cs.append(get_column_indices)
+
+    SELF4 = {"__class__": "ModelSpec", "structure": "Seq[ETS]", "term_indices": "Dict[Term,Seq[Int]]"}
+    # term_slices: slice(v[0], v[-1]+1) covers exactly the (contiguous) index list; empty -> slice(0,0)
+    term_slices = reg.add(Contract(
+        MS + "term_slices", params={"self": SELF4}, returns="Dict[Term,slice]", is_property=True,
+        lets={"T": "self.term_indices"},
+        ensures=[
+            "len(keys(result)) == len(keys(T))",
+            "forall(lambda i: implies(0 <= i and i < len(keys(T)), keys(result)[i] == keys(T)[i]))",
+            "forall(lambda i: implies(0 <= i and i < len(keys(T)) and len(T[keys(T)[i]]) > 0, "
+            "result[keys(T)[i]].start == T[keys(T)[i]][0] and result[keys(T)[i]].stop == T[keys(T)[i]][len(T[keys(T)[i]]) - 1] + 1))",
+            "forall(lambda i: implies(0 <= i and i < len(keys(T)) and len(T[keys(T)[i]]) == 0, "
+            "result[keys(T)[i]].start == 0 and result[keys(T)[i]].stop == 0))",
+        ], props=["C10"]))
+    cs.append(term_slices)
     return reg, cs
 
 
